@@ -91,6 +91,10 @@ def gen_cases(rng, tier):
               "drop;adv:32001;select", "drop;adv:31999;select;adv:40000;drop;adv:32001",
               "drop,select;adv:32001", "drop,select;adv:40000;frame", "drop,select;adv:31999;adv:2;select", "drop,select,drop;adv:32001"):
         cases.append(["e%d" % k, "c15", "out", g]); k += 1
+    # an outgoing connection whose stream reports another peer address than the one that was dialled (connect through the unspecified
+    # address, a tunnelling factory): messages are delivered, it is closed 32 s after the last use like any other
+    for g in ("frame;drop;adv:31999;adv:2", "drop;frame;adv:31999;adv:2;adv:31999", "drop;adv:32001", "clone,frame;drop,drop;adv:10;frame;adv:31999;adv:2", "frame,close", "drop;adv:100;close"):
+        cases.append(["e%d" % k, "c15", "outalias", g]); k += 1
     # a message that becomes readable half a millisecond before the 32 s are over (the runtime sees it in the tick in which the idle
     # timer fires): it arrived in time, it is delivered and restarts the 32 s; half a millisecond after, the connection is gone
     for init in ("out", "in"):
@@ -126,7 +130,7 @@ def model_case(case, impl):
             else:
                 evs.append(e)
         groups.append(",".join(evs) if evs else "adv:0")
-    return case[:3] + [";".join(groups)] + case[4:]
+    return case[:2] + ["out" if case[2] == "outalias" else case[2]] + [";".join(groups)] + case[4:]
 
 
 def _sim_track(case):
